@@ -322,7 +322,13 @@ bool apply_workload_edit(std::string& d, const Step& st)
     std::vector<int> v = tags_named({"point"}); std::vector<const xmlscan::Attr*> as;
     for (int t : v) for (auto& a : S.tags[t].attrs) if (d.substr(a.nb, a.ne - a.nb) == "adj") as.push_back(&a);
     if (as.empty()) return false; const xmlscan::Attr* a = as[(size_t)st.arg(0) % as.size()];
+    std::string before = d.substr(a->vb, a->ve - a->vb);
     for (size_t i = a->vb; i < a->ve; i++) d[i] = st.arg(1) % 2 ? (char)toupper((unsigned char)d[i]) : (char)tolower((unsigned char)d[i]);
+    // A free network whose datum rests on exactly ONE constrained point is ill-posed (the point fixes the translation,
+    // nothing fixes the rotation): its adjusted coordinates depend on the approximate ones, so two rounds differ by
+    // construction.  The edit is taken back when it leaves exactly one constrained position.
+    int nXY = 0; for (const xmlscan::Attr* q : as) if (d.compare(q->vb, 2, "XY") == 0) nXY++;
+    if (nXY == 1) { d.replace(a->vb, a->ve - a->vb, before); return false; }
     return true;
   }
   if (st.op == "ids") {
